@@ -147,6 +147,22 @@ BY_NAME = {
     "parentName": ["hub"], "sonName": ["x"], "owner": ["$OUT"], "resolver": ["@ServiceResolverContractAddr"], "serviceName": [FULL_A],
     "operator": ["@ServiceResolverContractAddr"], "des": ["d"], "dids": ["did:1"], "pierAddr": ["$ADMA"],
 }
+# per contract: what the parameter names mean there (the world's objects of that contract)
+BY_CONTRACT = {
+    "ServiceManager": {"objId": ["chainB:svcB", "chainA:svcA"], "id": ["chainA:svcA", "chainB:svcB"], "eventTyp": ["freeze", "logout", "update"],
+                       "chainServiceID": ["chainA:svcA", "chainB:svcB"]},
+    "AppchainManager": {"objId": ["chainA", "chainB"], "id": ["chainA", "chainB"], "eventTyp": ["freeze", "logout", "update", "register"]},
+    "RuleManager": {"chainRuleID": ["chainA:" + HAPPY_RULE], "eventTyp": ["update"]},
+    "RoleManager": {"objId": ["$GOV1", "$NEW"], "eventTyp": ["freeze", "register"]},
+    "NodeManager": {"objId": ["$NODE"], "eventTyp": ["logout", "update"], "id": ["$NODE"]},
+    "Governance": {"id": ["$P0", "$ADMA-0"], "objId": ["chainB:svcB", "chainA"], "eventTyp": ["pause", "freeze"], "typ": ["service_mgr", "appchain_mgr"],
+                   "from": ["$OUT"], "num": [1]},
+    "InterchainManager": {"id": [FULL_A, FULL_B], "chainServiceID": ["chainZ:svcZ", "chainA:svcA"], "key": ["bitxhub-id", "service-" + FULL_A]},
+    "Store": {"key": ["k", "k2"], "value": ["v2"]},
+    "TransactionManager": {"txId": [TXID, FULL_B + "-" + FULL_A + "-1"], "id": [TXID]},
+    "DappManager": {"id": ["$OUT-0"], "objId": ["$OUT-0"]},
+    "GovStrategy": {"objId": ["service_mgr"], "eventTyp": ["update"]},
+}
 STR_POOL = ["chainA", "chainA:svcA", FULL_A, "$P0", "$GOV1", "$ADMA", "approve", "freeze", "available", "", "junk", TXID, "bitxhub-id", "@InterchainContractAddr"]
 U64_POOL = [1, 0, 2, 1000, "18446744073709551615"]
 I32_POOL = [1, 2, 3, 0, 7]
@@ -179,7 +195,7 @@ def arg_for(method, i, vec, rng):
     kind = method.params[i]
     pname = method.pnames[i] if i < len(method.pnames) else "_"
     if kind in ("string", "any"):
-        pool = BY_NAME.get(pname, STR_POOL)
+        pool = BY_CONTRACT.get(method.contract, {}).get(pname) or BY_NAME.get(pname, STR_POOL)
         if vec < len(pool):
             return ["s", pool[vec]]
         return ["s", rng.choice(pool + STR_POOL)]
